@@ -112,6 +112,7 @@ func checkC06(c *Ctx) {
 	watcherGoroutinesEnd(c, fns, "R-watcher-ends")
 	interfaceKeysHashable(c, fns, "R-hashable-key")
 	nilableMembers(c, fns, "R-nil-member")
+	lookupOKConsulted(c, fns, "R-ok-consulted")
 	poolResetRule(c, "R-pool-reset") // one peer's truncated input must not be what the next request is parsed from
 	c06IndexGuard(c, fns, "R-index-guard")
 	c.R.Min("R-nonblocking-send", 10)
@@ -806,4 +807,59 @@ func nilableMembers(c *Ctx, fns []*ssa.Function, rule string) {
 	if n == 0 {
 		c.R.Hold(rule, "no calls through members that a configuration sets to nil", "", sprintf("%v", ks))
 	}
+}
+
+// lookupOKConsulted (R-ok-consulted): a library lookup reports absence through its boolean result. Where the value is
+// used and the boolean is thrown away (`v, _ := lookup(k)`), absence is judged by `v == nil` — which is false for an
+// interface that holds a typed nil pointer, as the session managers return for an unknown id: the handler goes on with
+// a nil session and panics instead of answering 404. On server paths the boolean of such a call is never discarded
+// while the value is used.
+func lookupOKConsulted(c *Ctx, fns []*ssa.Function, rule string) {
+	n := 0
+	for _, fn := range fns {
+		cnt := 0
+		ir.EachInstr(fn, func(_ *ssa.BasicBlock, _ int, in ssa.Instruction) {
+			call, ok := in.(*ssa.Call)
+			if !ok || call.Referrers() == nil {
+				return
+			}
+			sig := call.Call.Signature()
+			if sig == nil || sig.Results().Len() != 2 || ir.TypeStr(sig.Results().At(1).Type()) != "bool" {
+				return
+			}
+			switch sig.Results().At(0).Type().Underlying().(type) {
+			case *types.Interface, *types.Pointer:
+			default:
+				return
+			}
+			// library lookups only (interface methods declared in the library, or library functions)
+			lib := false
+			if call.Call.IsInvoke() {
+				lib = call.Call.Method.Pkg() != nil && strings.HasPrefix(call.Call.Method.Pkg().Path(), ir.RootPath)
+			} else if sc := ir.StaticCallee(call); sc != nil {
+				lib = c.P.IsLib(sc)
+			}
+			if !lib {
+				return
+			}
+			valUsed, okUsed := false, false
+			for _, r := range *call.Referrers() {
+				if ex, ok := r.(*ssa.Extract); ok && ex.Referrers() != nil && len(*ex.Referrers()) > 0 {
+					if ex.Index == 0 {
+						valUsed = true
+					} else {
+						okUsed = true
+					}
+				}
+			}
+			if !valUsed {
+				return
+			}
+			n++
+			cnt++
+			c.R.Check(okUsed, rule, sprintf("found-flag of lookup #%d in %s", cnt, fname(fn)), c.Pos(call.Pos()), "the boolean result is consulted",
+				sprintf("%s uses the value of a library lookup (%s) but discards its found-flag: absence can then only be judged by comparing the value with nil, which is false for an interface holding a typed nil pointer — an unknown id is taken for a hit and the handler dereferences nil", fname(fn), ir.CallName(call)))
+		})
+	}
+	c.R.Min(rule, 3)
 }
